@@ -1,6 +1,6 @@
 (* driver for C11.  Case line: "<sink> <op> ..." (see harness/C11.c for the op syntax); a
    final flush is appended to every case.  Observation: per op the delivered chunks,
-   "c,c;c;;" (chunk = hex, "-" = empty chunk, every op closed by ';').
+   "c,c;c;;" (chunk = 'f' or 'd' for the sink, then hex, "-" = empty chunk; every op closed by ';').
    model mode prints the model's observation; oracle mode reads "<case> | <obs>" and prints
    OK or BAD according to the extracted checker [check] (OutBufSpec.v). *)
 let ztab = Array.init 256 z_of_int
@@ -37,8 +37,8 @@ let op_of_tok t =
   | 'S' -> OWritef (no_nul (bytes_of_hex rest))
   | 'Q' -> let (b, _) = gen_bytes rest in OWritef b
   | 'T' -> let b = no_nul (bytes_of_hex rest) in OWrite (b @ [nul], z_of_int (List.length b))
-  | 'O' -> OSetFunc
-  | 'D' -> OSetFd
+  | 'O' -> OSetFunc (rest <> "0")
+  | 'D' -> OSetFd (rest <> "0")
   | _ -> failwith "op"
 let parse_case line =
   match split_ws line with
@@ -51,7 +51,8 @@ let parse_case line =
 let pr_outs outs =
   let b = Buffer.create 256 in
   List.iter (fun d ->
-      List.iteri (fun i c -> if i > 0 then Buffer.add_char b ','; hex_of_bytes b c) d;
+      List.iteri (fun i (t, c) -> if i > 0 then Buffer.add_char b ',';
+                   Buffer.add_char b (match t with SFunc -> 'f' | SFd -> 'd'); hex_of_bytes b c) d;
       Buffer.add_char b ';') outs;
   Buffer.contents b
 let model line =
@@ -65,7 +66,11 @@ let parse_obs o =
   let n = String.length o in
   if n = 0 || o.[n-1] <> ';' then failwith "obs";
   let groups = String.split_on_char ';' (String.sub o 0 (n - 1)) in
-  List.map (fun g -> if g = "" then [] else List.map bytes_of_hex (String.split_on_char ',' g)) groups
+  let chunk c =
+    if String.length c < 2 then failwith "chunk";
+    let t = match c.[0] with 'f' -> SFunc | 'd' -> SFd | _ -> failwith "chunk tag" in
+    (t, bytes_of_hex (String.sub c 1 (String.length c - 1))) in
+  List.map (fun g -> if g = "" then [] else List.map chunk (String.split_on_char ',' g)) groups
 let oracle line =
   match String.index_opt line '|' with
   | None -> "BAD no observation"
@@ -74,7 +79,7 @@ let oracle line =
     let (f, d, ops) = parse_case c in
     (match (try Some (parse_obs o) with Failure _ -> None) with
      | None -> "BAD unparsable observation"
-     | Some outs -> if check (f || d) ops outs then "OK" else "BAD")
+     | Some outs -> if check f d ops outs then "OK" else "BAD")
 let () =
   let f = if Array.length Sys.argv > 1 && Sys.argv.(1) = "oracle" then oracle else model in
   iter_lines (fun l -> print_endline (try f l with Failure m -> "ERR " ^ m))
